@@ -191,7 +191,10 @@ func PayloadAlt(sp *spec.Spec, m *spec.Method, r *vc.Rand, mode, altRot int) (tr
 	o := map[string]any{}
 	for _, a := range rt.Attrs {
 		loc := LocOf(m.HTTP, a.Name)
-		req := rt.IsRequired(a.Name) || loc == valgen.Path || a.HasDef
+		// a primitive with a default has no "unset" in its Go field (the zero value is sent); a collection has (nil)
+		art, _ := sp.Resolve(a.Type)
+		collection := art != nil && (art.Kind == spec.Array || art.Kind == spec.Map)
+		req := rt.IsRequired(a.Name) || loc == valgen.Path || a.HasDef && !collection
 		if a.Sec != "" {
 			// credentials are always supplied in delivery checks
 			o[a.Name] = vtree.S(credPool[r.Intn(3)]) // blank-free tokens: credential alphabets belong to C06
